@@ -240,23 +240,39 @@ CHECKS.update({
    text="Theorems on the member-name handling of the tar reader and the zip/tar writers: every name kept is a relative path of "
         "clean components (no '..', not absolute), names whose resolution climbs above the root are dropped wherever they occur, "
         "kept names originate from a member, the exception-faithful loop never fails, and names produced by the writers round-trip "
-        "unchanged. Real code: generated trees (unicode, empty dirs, empty and 1 MiB files) x {zip stored/deflated, tar, gz, bz2, "
+        "unchanged. Tree level (Archive/TreeArch*.v; an archive = the ordered member list handed to / got from zipfile/tarfile): for "
+        "EVERY well-formed tree (unique, '/'- and NUL-free names other than '.' and '..' - each side condition shown necessary) "
+        "reading what the writers emit gives back exactly the tree (names, types, bytes, entry order; times through the format's "
+        "time function) for zip and tar; the writers' member order is the code's queue walk; for ARBITRARY member lists the "
+        "presented tree is well-formed and confined to the root, climbing names are dropped (tar) / raise (zip), implicit "
+        "directories exist, duplicates: structure of the first, data of the last; ReadZipFS's directory building is literally the "
+        "C01-verified MemoryFS model's makedirs/create. " + CORR + "Writers' member lists (names, kinds, bytes, order) = model; "
+        "readers' presented trees on generated arbitrary member lists = model. Real code: generated trees (unicode, empty dirs, empty and 1 MiB files) x {zip stored/deflated, tar, gz, bz2, "
         "xz} x temp_fs x target x route, compared in both directions (paths, types, bytes, sizes, mtimes at the format's "
         "resolution); crafted archives ('..', absolute, duplicate, implicit/conflicting entries) inside a canary directory with an "
-        "open() audit hook.",
-   note=TB + "Container formats are zipfile/tarfile's. ReadZipFS's directory building is not modelled (three crafted-zip deviations "
-        "and a time-zone inconsistency are recorded findings).",
-   technique="Coq proof on member-name handling + archive round-trip and crafted-archive differential",
+        "open() audit hook; boundary modification times per format; every keyword parameter of the constructors / writers / openers "
+        "by reflection (encoding, compression, temp_fs, walker, file) with non-ASCII, long and odd names.",
+   note=TB + "Container byte formats are zipfile/tarfile's (external). Three crafted-zip deviations and a time-zone inconsistency "
+        "are recorded findings.",
+   technique="Coq proof (member names; tree-level write/read model, all trees and all member lists) + exact member-list / "
+             "presented-tree tie + archive round-trip and crafted-archive differential",
    ref="DESIGN.md §4 C15, §9"),
  "C19": dict(
    text="Theorems: _copy_is_necessary equals the documented condition for all five conditions and all existence/mtime cases "
         "(incl. unknown times), newer/older exclusive, exists/not_exists complementary; the per-file loop of copy_dir_if copies "
         "exactly the files satisfying the condition against the original destination, reports exactly those, and leaves every "
-        "other path unchanged; mirror's comparison settles. Real code: pairs of generated trees (disjoint/overlapping/"
+        "other path unchanged; mirror's comparison settles. Tree level (Copy/TreeCopy*.v, two trees): for ALL well-formed trees "
+        "mirror (copy_if_newer=False) makes the destination an exact replica (names, types, bytes; times when preserve_time), "
+        "never fails, is idempotent; with copy_if_newer the only files kept are same-size ones whose time is known and not "
+        "older; copy_fs delivers every source file and directory and leaves every other destination path untouched; "
+        "copy_fs_if copies exactly the files its condition selects against the original destination; the calls fail exactly on "
+        "file/directory clashes (classes stated). " + CORR + "The destination tree of the real copy_fs / copy_fs_if (5 "
+        "conditions) / mirror on generated tree pairs = model (600 pairs quick). Real code: pairs of generated trees (disjoint/overlapping/"
         "conflicting/empty) x 4 backend pairs + 3 same-filesystem-object backends x 4 walkers x mtime relations x 5 conditions x preserve_time; copy_fs/copy_dir/"
         "*_if/mirror compared with an expectation computed from the documentation alone.",
    note=TB + "mirror with a depth-limited walker is a recorded finding. Worker threads are C09's.",
-   technique="Coq proof of the condition table and copy loop + tree-pair differential",
+   technique="Coq proof (condition table, copy loop, tree-level mirror/copy_fs model for all trees) + model/real tree-pair "
+             "differential + documentation-derived expectation differential",
    ref="DESIGN.md §4 C19, §9"),
 })
 
